@@ -108,11 +108,10 @@ func run(c *engine.Ctx) {
 				hi = nClasses
 			}
 			c.Unit(fmt.Sprintf("classes/n=%d/%d-%d", n, lo, hi-1), func() {
-				resetUnit()
 				cls := gen.Classes(n)
 				for ci := lo; ci < hi && !c.Stopped(); ci++ {
 					base := cls[ci]
-					r := computeRef(base, true)
+					r := computeRef(base, true, true)
 					if !refComplete(c, base, r) {
 						continue
 					}
@@ -132,99 +131,107 @@ func run(c *engine.Ctx) {
 	// ---------------------------------------------------------------- 2. ChromaticPolynomial on SparseGraph
 	// Separate units: on a tree where SparseGraph.RemoveVertex is broken (C05)
 	// this call does not return, and a budget event costs the rest of its unit.
+	type block struct {
+		name       string
+		n, lo, hi int
+	}
+	var blocks []block
 	for n := 0; n <= maxN; n++ {
-		n := n
-		nClasses := classCount(n)
-		per := nClasses
+		per := classCount(n)
 		if n == 7 {
 			per = 261
 		}
 		if n == 8 {
-			per = 400
+			per = 800
 		}
-		if n < 6 {
-			if n > 0 {
-				continue // n <= 5 share one unit
-			}
-		}
-		for lo := 0; lo < nClasses; lo += per {
-			lo := lo
+		for lo := 0; lo < classCount(n); lo += per {
 			hi := lo + per
-			if hi > nClasses {
-				hi = nClasses
+			if hi > classCount(n) {
+				hi = classCount(n)
 			}
-			name := fmt.Sprintf("poly-sparse/n=%d/%d-%d", n, lo, hi-1)
-			from, to := n, n
-			if n == 0 {
-				name = "poly-sparse/n<=5"
-				from, to = 0, 5
-			}
-			c.Unit(name, func() {
-				resetUnit()
-				for nn := from; nn <= to; nn++ {
-					cls := gen.Classes(nn)
-					a, b := lo, hi
-					if n == 0 {
-						a, b = 0, len(cls)
-					}
-					for ci := a; ci < b && !c.Stopped(); ci++ {
-						base := cls[ci]
-						r := computeRef(base, true)
-						if r.colCount == nil {
-							c.Inconclusive("no colouring counts for " + base.G6())
-							continue
-						}
-						for li, p := range labellings(c, nn, 2, "poly-labelling", nn*100000+ci) {
-							if li == 1 {
-								p = c.Rand("poly-sparse-perm", nn*100000+ci).Perm(nn)
-								if nn <= 5 {
-									p = reversal(nn)
-								}
-							}
-							cs := &graphCase{workload: "poly-sparse", class: base.G6(), labelling: li, perm: p, g: base.Induced(p), ref: r}
-							j := newJudge(c, cs, "sparse", "", nil)
-							j.polynomial(cs.g.Sparse(), "sparse")
-						}
-					}
-				}
-			})
+			blocks = append(blocks, block{fmt.Sprintf("poly-sparse/n=%d/%d-%d", n, lo, hi-1), n, lo, hi})
 		}
+	}
+	for _, bl := range blocks {
+		bl := bl
+		c.Unit(bl.name, func() {
+			cls := gen.Classes(bl.n)
+			for ci := bl.lo; ci < bl.hi && !c.Stopped(); ci++ {
+				base := cls[ci]
+				r := computeRef(base, true, false)
+				if r.colCount == nil {
+					c.Inconclusive("no colouring counts for " + base.G6())
+					continue
+				}
+				for li, p := range labellings(c, bl.n, 3, "poly-labelling", bl.n*100000+ci) {
+					cs := &graphCase{workload: "poly-sparse", class: base.G6(), labelling: li, perm: p, g: base.Induced(p), ref: r}
+					j := newJudge(c, cs, "sparse", "rg.Sparse()", nil)
+					j.polynomial(cs.g.Sparse(), "sparse")
+				}
+			}
+		})
+	}
+
+	c.Unit("poly-sparse/families", func() {
+		for _, f := range families() {
+			if f.g.N > 9 || c.Stopped() {
+				continue
+			}
+			r := computeRef(f.g, true, false)
+			for li, p := range labellings(c, f.g.N, 2, "family-poly-labelling", 0) {
+				cs := &graphCase{workload: "poly-sparse", class: f.g.G6(), labelling: li, perm: p, g: f.g.Induced(p), ref: r}
+				newJudge(c, cs, "sparse", "rg.Sparse()", nil).polynomial(cs.g.Sparse(), "sparse")
+			}
+		}
+	})
+	nSeeded := c.Pick(480, 4800)
+	perUnit := 12
+	for u := 0; u*perUnit*10 < nSeeded; u++ {
+		u := u
+		c.Unit(fmt.Sprintf("poly-sparse/seeded/%d", u), func() {
+			for i := u * perUnit * 10; i < (u+1)*perUnit*10 && i < nSeeded && !c.Stopped(); i++ {
+				g, what := seededGraph(c.Rand("seeded-graph", i), i)
+				if g.N > 9 {
+					continue
+				}
+				r := computeRef(g, true, false)
+				cs := &graphCase{workload: "poly-sparse", class: g.G6(), labelling: 0, perm: identity(g.N), g: g, ref: r}
+				_ = what
+				newJudge(c, cs, "sparse", "rg.Sparse()", nil).polynomial(cs.g.Sparse(), "sparse")
+			}
+		})
 	}
 
 	// ---------------------------------------------------------------- 3. named families
 	for fi, f := range families() {
 		fi, f := fi, f
 		c.Unit("family/"+f.name, func() {
-			resetUnit()
-			r := computeRef(f.g, f.g.N <= 9)
+			r := computeRef(f.g, f.g.N <= 9, !f.heavyIndex && f.g.M() <= 32)
 			if !mergePublished(c, f, r) {
 				return
 			}
 			n := f.g.N
 			for li, p := range labellings(c, n, 3, "family-labelling", fi) {
 				cs := &graphCase{workload: "family:" + f.name, class: f.g.G6(), labelling: li, perm: p, g: f.g.Induced(p), ref: r}
-				opt := runOpts{index: !f.heavyIndex && f.g.M() <= 32, polyDense: n <= 9, polySparse: n <= 9, allOrders: false, seededOrders: 6, rng: caseRng(c, li < 2, "family", fi, li)}
+				opt := runOpts{index: !f.heavyIndex && f.g.M() <= 32, polyDense: n <= 9, allOrders: false, seededOrders: 6, rng: caseRng(c, li < 2, "family", fi, li)}
 				runCase(c, cs, opt)
 			}
 		})
 	}
 
 	// ---------------------------------------------------------------- 4. seeded graphs
-	nSeeded := c.Pick(480, 4800)
-	perUnit := 12
 	for u := 0; u*perUnit < nSeeded; u++ {
 		u := u
 		c.Unit(fmt.Sprintf("seeded/%d", u), func() {
-			resetUnit()
 			for i := u * perUnit; i < (u+1)*perUnit && i < nSeeded && !c.Stopped(); i++ {
 				rg0 := c.Rand("seeded-graph", i)
 				g, what := seededGraph(rg0, i)
-				r := computeRef(g, g.N <= 9)
+				r := computeRef(g, g.N <= 9, g.M() <= 18)
 				if !refComplete(c, g, r) {
 					continue
 				}
 				cs := &graphCase{workload: "seeded:" + what, class: g.G6(), labelling: 0, perm: identity(g.N), g: g, ref: r}
-				opt := runOpts{index: g.M() <= 18, polyDense: g.N <= 9, polySparse: g.N <= 9, seededOrders: 6, rng: c.Rand("seeded-case", i)}
+				opt := runOpts{index: g.M() <= 18, polyDense: g.N <= 9, seededOrders: 6, rng: c.Rand("seeded-case", i)}
 				runCase(c, cs, opt)
 				if i < 2 {
 					c.Sample("seeded", map[string]interface{}{"kind": what, "graph6": g.G6(), "n": g.N, "m": g.M(), "omega": r.omega, "chi": r.chi, "chi_index": r.chiIdx, "degeneracy": r.degen})
@@ -289,9 +296,6 @@ func refComplete(c *engine.Ctx, g *rg.G, r *ref) bool {
 	if r.omega < 0 || r.alpha < 0 || r.chi < 0 || r.degen < 0 || r.nCliques < 0 {
 		c.Inconclusive("reference values unavailable for " + g.G6())
 		return false
-	}
-	if r.chiIdx < 0 {
-		c.Obs("oracle:edge_colouring_search_gave_up", 1)
 	}
 	return true
 }
